@@ -13,13 +13,24 @@ namespace NucleoVerif
 
 /-- `Update` is chosen only for a truthful append onto a column that was not already due for a
     rescore and whose last atom can only be narrowed by more text -/
-theorem C07_update_rule (old : PStatus) (atoms : List Atom) (append : Bool) (h : reparseStatus old atoms append = .update) :
-    append = true ∧ old ≠ .rescore ∧ ∀ a, atoms.getLast? = some a → lastAtomAllowsUpdate a = true := by
+theorem C07_update_rule (old : PStatus) (atoms newAtoms : List Atom) (append : Bool) (h : reparseStatus old atoms newAtoms append = .update) :
+    append = true ∧ old ≠ .rescore ∧ (∀ a, atoms.getLast? = some a → lastAtomAllowsUpdate a = true) ∧ normKept atoms newAtoms = true := by
   unfold reparseStatus at h
   simp at h
-  refine ⟨h.1, h.2.1, ?_⟩
+  refine ⟨h.1, h.2.1, ?_, h.2.2.2⟩
   intro a ha
-  simpa [ha] using h.2.2
+  simpa [ha] using h.2.2.1
+
+/-- the last atom keeps normalizing unless it did not before (repair of F16: appended text that switches smart
+    normalization off must not take the shortcut) -/
+theorem C07_update_keeps_normalization (old : PStatus) (atoms newAtoms : List Atom) (append : Bool) (a b : Atom)
+    (h : reparseStatus old atoms newAtoms append = .update) (ha : atoms.getLast? = some a) (hb : newAtoms[atoms.length - 1]? = some b)
+    (hn : a.normalize = true) : b.normalize = true := by
+  have := (C07_update_rule old atoms newAtoms append h).2.2.2
+  unfold normKept at this
+  rw [ha, hb] at this
+  simp only [hn, Bool.true_and, Bool.not_not] at this
+  exact this
 
 /-- what the rule excludes: negated atoms, postfix/exact atoms (`foo$`), a text ending in a backslash,
     and a non-fuzzy atom ending in an escaped `\$` -/
